@@ -149,7 +149,7 @@ impl<'a> Px<'a> {
     pub fn explore(&self, cfg: &RunCfg, rep: &mut Report, extra: &mut dyn FnMut(&Px, &PxRun, &mut Report)) {
         let b = Bounds::default();
         // deterministic split; shallow runs are visited by the worker owning their index
-        let roots = xplore::split(&b, cfg.nworkers * 8, |c| self.run(c), |i, c, o| {
+        let roots = xplore::split(&b, cfg.nworkers * 64, |c| self.run(c), |i, c, o| {
             if cfg.mine(i) {
                 extra(self, &o, rep);
                 self.visit(c, o, rep);
